@@ -41,6 +41,15 @@ def run_once(path, outdir, fmt, quiet, wae, strip='\0'):
                         int(self.linenumber or 0), self.module is self, self.module.fullName()])
         return real_report(self, descr, section=section, lineno_offset=lineno_offset, thresh=thresh)
 
+    from pydoctor import node2stan
+    real_gl = node2stan.get_lineno
+    own_lines = []
+
+    def gl(node):
+        own_lines.append(bool(getattr(node, 'line', None)))
+        return real_gl(node)
+    node2stan.get_lineno = gl
+    holder['xref_own_line'] = own_lines
     driver.get_system, driver.make, model.Documentable.report = gs, mk, report
     buf = io.StringIO()
     try:
@@ -59,6 +68,7 @@ def run_once(path, outdir, fmt, quiet, wae, strip='\0'):
                 code = 'exception:%s:%s' % (type(e).__name__, str(e)[:200])
     finally:
         driver.get_system, driver.make, model.Documentable.report = real_gs, real_make, real_report
+        node2stan.get_lineno = real_gl
     lines = [(l.replace(strip, '@ROOT@') if strip != '\0' else l.replace(path, '@MOD@')) for l in buf.getvalue().split('\n')]
     if lines and lines[-1] == '':
         lines.pop()
@@ -79,6 +89,7 @@ def run_source(root, idx, src, fmt, target, quiet):
     obs['violations'] = holder.get('violations_after_make')
     obs['violationsW'] = holderW.get('violations_after_make')
     obs['final_violations'] = s.violations if s is not None else None
+    obs['xref_own_line'] = holder.get('xref_own_line', [])
     if s is not None:
         obs['parse_error_sections'] = {k: sorted(v) for k, v in s.parse_errors.items() if v}
         o = s.allobjects.get(target)
